@@ -12,8 +12,8 @@
   the byte-for-byte / delivery correspondence of the model with the real server and client: everything
   else of `resp_fidelity` (see the header of this file as it grows).
 -/
-import GoImap.Lemmas.RespWire
-import GoImap.Model.RespGrammar
+import GoImap.Lemmas.RespLines
+import GoImap.Spec.RespGrammar
 namespace GoImap.C03
 open GoImap.Resp
 
@@ -39,5 +39,36 @@ theorem inbox_case_repaired : sameMailbox (asc "inbox") (asc "INBOX") = true := 
 
 /-- before the repair `Status("inbox")` / `Select("inbox")` did not recognise the server's answer about INBOX -/
 theorem inbox_case_legacy_counterexample : Legacy.sameMailbox (asc "inbox") (asc "INBOX") = false := by decide
+
+/-- EXPUNGE: the sequence numbers the backend wrote through `ExpungeWriter.WriteExpunge` are what
+    `ExpungeCommand.Collect` returns, in order (bytes of the whole command: the untagged lines and the
+    tagged completion) -/
+theorem resp_fidelity_expunge (l : List Nat) (tag text : Str) (ht : IsTag tag) (hx : IsText text)
+    (hwf : RespSpec.wfExpunge l = true) :
+    (parseAll (printExpunges l ++ (tag ++ asc " OK " ++ text ++ CRLFb))).map deliverExpunge = some l := by
+  have hall : ∀ n ∈ l, 0 < n ∧ n < 4294967296 := by
+    intro n hn
+    have := List.all_eq_true.mp hwf n hn
+    simpa using this
+  have hlines : AllRead (l.map (fun n => star ++ [32] ++ encNumber n ++ asc " EXPUNGE\r\n") ++ [tag ++ asc " OK " ++ text ++ CRLFb])
+      (l.map Event.expunge ++ [Event.done tag (asc "OK") Code.none]) :=
+    AllRead.append (AllRead.map _ _ l (fun n hn => expunge_line n (hall n hn).2)) (AllRead.single (done_line tag text ht hx))
+  have hflat : printExpunges l ++ (tag ++ asc " OK " ++ text ++ CRLFb) =
+      (l.map (fun n => star ++ [32] ++ encNumber n ++ asc " EXPUNGE\r\n") ++ [tag ++ asc " OK " ++ text ++ CRLFb]).flatten := by
+    simp [printExpunges, List.flatMap]
+  rw [hflat, parseAll_lines _ _ hlines]
+  simp only [Option.map_some, deliverExpunge]
+  congr 1
+  have hfm : ∀ (xs : List Nat), expungeNums (xs.map Event.expunge ++ [Event.done tag (asc "OK") Code.none]) = xs := by
+    intro xs; induction xs with
+    | nil => rfl
+    | cons x t ih => simp only [List.map_cons, List.cons_append, expungeNums, List.filterMap_cons] at ih ⊢; rw [ih]
+  rw [hfm]
+  apply takeWhile_all
+  intro n hn
+  have := (hall n hn).1
+  simp; omega
+
+example : RespSpec.wfExpunge [3, 1, 4294967295] = true := by decide
 
 end GoImap.C03
